@@ -14,7 +14,7 @@ def _resname(i):
 
 
 def gen_restype(g, name, atypes, idx, allow_vs=True, allow_angles=True, max_atoms=4, shape=None, impossible_p=0.0,
-                vs_p=0.25):
+                vs_p=0.25, improper_p=0.0, strained_p=0.0):
     """One residue type: 1..max_atoms uniquely named atoms joined by bonds/constraints
     (tree or ring), optional angles, optional virtual site."""
     n = g.randint(1, max_atoms)
@@ -56,6 +56,23 @@ def gen_restype(g, name, atypes, idx, allow_vs=True, allow_angles=True, max_atom
             if len(nb) >= 2:
                 angles.append([nb[0], b, nb[1], g.choice([100, 120, 140, 180]), 50])
                 break
+    impropers = []
+    if n == 4 and shape != "ring" and not impossible and g.random() < improper_p:
+        # harmonic improper (GROMACS type 2) with a non-planar reference: fixes the handedness of the centre
+        if shape == "chain":
+            quad = [0, 1, 2, 3]
+        else:
+            quad = [0, 1, 2, 3]
+        impropers.append([quad[0], quad[1], quad[2], quad[3], g.choice([35.26, -35.26, 20.0, -25.0]), 300])
+    strained = False
+    if n == 4 and shape == "ring" and not impossible and g.random() < strained_p:
+        # four bonds of length b around the ring and a diagonal constraint slightly longer than 2b: the optimum leaves
+        # the bonds ~delta/4 and the constraint ~delta/2 off, i.e. the constraint alone outside the 0.05 nm tolerance
+        b = 0.30
+        delta = round(g.uniform(0.13, 0.19), 3)
+        bonds[:] = [[0, 1, b, 5000], [1, 2, b, 5000], [2, 3, b, 5000], [0, 3, b, 5000]]
+        constraints[:] = [[0, 2, round(2 * b + delta, 3)]]
+        strained = True
     vsites = []
     if allow_vs and n >= 2 and g.random() < (0.9 if impossible else vs_p):
         kind = g.choice(["n1", "n1", "2"] + (["3", "3fd", "3fad", "3out"] if n >= 3 else []) + (["4fdn"] if n >= 4 else []))
@@ -84,7 +101,8 @@ def gen_restype(g, name, atypes, idx, allow_vs=True, allow_angles=True, max_atom
                                       round(g.uniform(0.05, 0.2), 3)]})
         atoms.append(site)
     return {"vs_zero_mass": bool(vsites) and g.random() < 0.5, "name": name, "atoms": atoms, "bonds": bonds, "constraints": constraints,
-            "angles": angles, "vsites": vsites, "blen": blen, "impossible": impossible}
+            "angles": angles, "vsites": vsites, "blen": blen, "impossible": impossible, "impropers": impropers,
+            "strained": strained}
 
 
 # ----------------------------------------------------------------------------- molecule types
@@ -152,7 +170,7 @@ def expand_moltype(mt, restypes):
             atoms.append((aid, a["atype"], r + 1, rname, a["name"]))
             ids.append(aid)
         res_atom_ids[r] = ids
-    sec = {"bonds": [], "constraints": [], "angles": [], "virtual_sitesn": [],
+    sec = {"dihedrals": [], "bonds": [], "constraints": [], "angles": [], "virtual_sitesn": [],
            "virtual_sites2": [], "virtual_sites3": [], "virtual_sites4": []}
     for r, rname in enumerate(mt["residues"]):
         rt = rtype(r, rname)
@@ -163,6 +181,8 @@ def expand_moltype(mt, restypes):
             sec["constraints"].append(f"{ids[a]} {ids[b]} 1 {l}")
         for a, b, c, th, k in rt["angles"]:
             sec["angles"].append(f"{ids[a]} {ids[b]} {ids[c]} 1 {th} {k}")
+        for a, b, c, d, q0, k in rt.get("impropers", []):
+            sec["dihedrals"].append(f"{ids[a]} {ids[b]} {ids[c]} {ids[d]} 2 {q0} {k}")
         nreal = len(rt["atoms"]) - len(rt["vsites"])
         for v, vs in enumerate(rt["vsites"]):
             site = ids[nreal + v]
@@ -209,7 +229,8 @@ def render_itp(mt, restypes, atype_mass, with_mass=True):
         if with_mass:
             line += f" {0.0 if (resname, aname) in zero else atype_mass[atype]}"
         out.append(line)
-    for name in ("bonds", "constraints", "angles", "virtual_sitesn", "virtual_sites2", "virtual_sites3", "virtual_sites4"):
+    for name in ("bonds", "constraints", "angles", "dihedrals", "virtual_sitesn", "virtual_sites2", "virtual_sites3",
+                 "virtual_sites4"):
         if sec[name]:
             out.append(f"[ {name} ]")
             out.extend(sec[name])
@@ -281,7 +302,8 @@ def gen_system(g, profile):
                                    allow_angles=profile.get("angles", True),
                                    max_atoms=profile.get("max_atoms", 4),
                                    shape=g.choice(profile["res_shapes"]) if profile.get("res_shapes") else None,
-                                   impossible_p=profile.get("impossible_p", 0.0), vs_p=profile.get("vs_p", 0.25))
+                                   impossible_p=profile.get("impossible_p", 0.0), vs_p=profile.get("vs_p", 0.25),
+                                   improper_p=profile.get("improper_p", 0.0), strained_p=profile.get("strained_p", 0.0))
     nmt = g.randint(*profile.get("n_moltypes", (1, 3)))
     moltypes = []
     shapes = profile.get("shapes")
